@@ -12,7 +12,7 @@ import (
 	"github.com/oauth2-proxy/oauth2-proxy/v7/providers"
 )
 
-var vC15SafePath = regexp.MustCompile(`^/[A-Za-z0-9/._~!$&'()*+,;=:@-]*$`)
+var vC15SafePath = regexp.MustCompile(`^/[A-Za-z0-9/._~$&+,;=:@-]*$`)
 var vC15Query = regexp.MustCompile(`^[A-Za-z0-9/._~!$&'()*+,;=:@?%-]*$`)
 
 var vErrStore = errors.New("verif: store failure")
@@ -77,6 +77,7 @@ type vStore struct {
 	saved      *sessionsapi.SessionState
 	clearCalls int
 	clearErr   error
+	firstClear error // outcome of the first Clear of the request
 	loadCalls  int
 }
 
@@ -96,6 +97,9 @@ func (s *vStore) Clear(_ http.ResponseWriter, _ *http.Request) error {
 	s.clearCalls++
 	if !s.reliable && ndBool("store-clear-fails") {
 		s.clearErr = vErrStore
+	}
+	if s.clearCalls == 1 {
+		s.firstClear = s.clearErr
 	}
 	return s.clearErr
 }
